@@ -9,6 +9,7 @@ pub(super) fn wrap_plan_iterator<'a, S: GraphSnapshot + 'a>(
         inner: Box::new(iter),
         params,
         stage,
+        limit_reported: false,
     }))
 }
 
@@ -16,19 +17,27 @@ struct RuntimeGuardIter<'a> {
     inner: Box<dyn Iterator<Item = Result<Row>> + 'a>,
     params: &'a crate::query_api::Params,
     stage: &'static str,
+    /// A resource-limit error ends the stream: consumers that keep pulling after an
+    /// error (`collect()` into a `Vec<Result<_>>`) must not receive it forever.
+    limit_reported: bool,
 }
 
 impl<'a> Iterator for RuntimeGuardIter<'a> {
     type Item = Result<Row>;
 
     fn next(&mut self) -> Option<Self::Item> {
+        if self.limit_reported {
+            return None;
+        }
         if let Err(err) = self.params.check_timeout(self.stage) {
+            self.limit_reported = true;
             return Some(Err(err));
         }
 
         match self.inner.next() {
             Some(Ok(row)) => {
                 if let Err(err) = self.params.note_emitted_row(self.stage) {
+                    self.limit_reported = true;
                     return Some(Err(err));
                 }
                 Some(Ok(row))
